@@ -243,6 +243,25 @@ func genC04(r *rand.Rand, tier string, env *Env) []Case {
 				Oracles: []Op{{"c04.member", args}}})
 		}
 	}
+	// every configuration of the menu (incl. those with exactly one pattern of a shell defined) with every marker kind
+	for _, cfg := range cfgMenu {
+		for _, shell := range []string{"unix", "windows"} {
+			var cb [][]byte
+			for _, c := range cfg {
+				cb = append(cb, []byte(c))
+			}
+			pat, sh := cfg[0:3], "u"
+			if shell == "windows" {
+				pat, sh = cfg[3:6], "w"
+			}
+			for _, w := range []string{"python@", "more~", "nc -l", "x\\@", "y\\~"} {
+				args := append([][]byte{[]byte(shell), []byte(w), []byte("alone")}, cb...)
+				cases = append(cases, Case{Kind: "cmd-word-each-config",
+					Ops:     []Op{{"cmdline.regexpStr", [][]byte{[]byte(sh), []byte(pat[0]), []byte(pat[1]), []byte(pat[2]), []byte(w)}}},
+					Oracles: []Op{{"c04.member", args}}})
+			}
+		}
+	}
 	// whole programs with cmdline blocks: language equality with the plain reading (shared with C01)
 	m := n / 3
 	for i := 0; i < m; i++ {
